@@ -416,15 +416,16 @@ def check_case(prop, case):
   return out, prop.oracle(case, out)
 
 
-def shrink(prop, case, sig, budget=200):
+def shrink(prop, case, sig, budget=200, wall_s=30):
   """Greedy shrinking: keep a candidate if it still fails with the same signature."""
   cur = case
   improved = True
-  while improved and budget > 0:
+  t_end = time.time() + wall_s
+  while improved and budget > 0 and time.time() < t_end:
     improved = False
     for cand in prop.shrink_candidates(cur):
       budget -= 1
-      if budget <= 0:
+      if budget <= 0 or time.time() > t_end:
         break
       try:
         _, fail = check_case(prop, cand)
